@@ -630,8 +630,8 @@ func (l *IPFSLog) Join(otherLog iface.IPFSLog, size int) (iface.IPFSLog, error) 
 	// must not supersede the heads it points to either
 	candidateHeads := l.heads.Merge(entry.NewOrderedMap())
 	for _, h := range otherHeads.Slice() {
-		if _, ok := l.Entries.Get(h.GetHash().String()); ok {
-			candidateHeads.Set(h.GetHash().String(), h)
+		if own, ok := l.Entries.Get(h.GetHash().String()); ok {
+			candidateHeads.Set(h.GetHash().String(), own)
 		}
 	}
 
